@@ -114,7 +114,7 @@ int main(int argc, char *argv[])
     int sk_fd, res;
     uint64_t proc_bytes = 0, msg_proc_bytes = 0;
     uint32_t udp_seq_num;
-    uint16_t msg_length, acf_msg_length;
+    uint16_t msg_length, acf_msg_length, pdu_length, vss_bytes;
     uint8_t subtype, acf_type;
     uint64_t flag;
     uint8_t pdu[MAX_PDU_SIZE];
@@ -141,8 +141,13 @@ int main(int argc, char *argv[])
             goto err;
         }
 
+        pdu_length = res;
+
         // If UDP is used the packets starts with an encapsulation number
         if (use_udp) {
+            if (pdu_length < AVTP_UDP_HEADER_LEN) {
+                continue;
+            }
             udp_pdu = pdu;
             udp_seq_num = Avtp_Udp_GetEncapsulationSeqNo((Avtp_Udp_t *)udp_pdu);
             cf_pdu = pdu + AVTP_UDP_HEADER_LEN;
@@ -152,14 +157,29 @@ int main(int argc, char *argv[])
         }
 
         // Check if the packet is a control format packet (i.e. NTSCF or TSCF)
+        if (pdu_length < proc_bytes + AVTP_COMMON_HEADER_LEN) {
+            continue;
+        }
         subtype = Avtp_CommonHeader_GetSubtype((Avtp_CommonHeader_t*)cf_pdu);
         if (subtype == AVTP_SUBTYPE_TSCF){
+            if (pdu_length < proc_bytes + AVTP_TSCF_HEADER_LEN) {
+                continue;
+            }
             proc_bytes += AVTP_TSCF_HEADER_LEN;
             msg_length = Avtp_Tscf_GetStreamDataLength((Avtp_Tscf_t*)cf_pdu);
         } else {
+            if (pdu_length < proc_bytes + AVTP_NTSCF_HEADER_LEN) {
+                continue;
+            }
             proc_bytes += AVTP_NTSCF_HEADER_LEN;
             msg_length = Avtp_Ntscf_GetNtscfDataLength((Avtp_Ntscf_t*)cf_pdu);
         }
+
+        // The packet has to hold at least the fixed ACF VSS header
+        if (pdu_length < proc_bytes + AVTP_VSS_FIXED_HEADER_LEN) {
+            continue;
+        }
+        vss_bytes = pdu_length - proc_bytes;
 
         // Check if the control packet payload is a ACF GPC.
         acf_pdu = &pdu[proc_bytes];
@@ -172,23 +192,43 @@ int main(int argc, char *argv[])
         // Parse the VSS Packet and print contents on the STDOUT
         Vss_AddrMode_t addrMode;
         VssPath_t path;
+        uint32_t path_bytes;
         addrMode = Avtp_Vss_GetAddrMode((Avtp_Vss_t*)acf_pdu);
-        Avtp_Vss_GetVssPath((Avtp_Vss_t*)acf_pdu, &path);
-
         if (addrMode == VSS_INTEROP_MODE) {
-            char path_string[path.vss_interop_path.path_length+1];
-            memset(path_string, '\0', path.vss_interop_path.path_length+1);
-            memcpy(path_string, path.vss_interop_path.path, path.vss_interop_path.path_length);
+            // The path (2 byte length + string) has to lie within the packet
+            if (vss_bytes < AVTP_VSS_FIXED_HEADER_LEN + 2) {
+                continue;
+            }
+            path_bytes = Avtp_Vss_CalcVssPathLength((Avtp_Vss_t*)acf_pdu);
+            if (path_bytes < 2 || path_bytes > vss_bytes - AVTP_VSS_FIXED_HEADER_LEN) {
+                continue;
+            }
+            char path_string[path_bytes - 2 + 1];
+            memset(path_string, '\0', path_bytes - 2 + 1);
+            path.vss_interop_path.path = path_string;
+            Avtp_Vss_GetVssPath((Avtp_Vss_t*)acf_pdu, &path);
             printf("VSS Path: %s, ", path_string);
         } else if (addrMode == VSS_STATIC_ID_MODE) {
+            path_bytes = 4;
+            if (path_bytes > vss_bytes - AVTP_VSS_FIXED_HEADER_LEN) {
+                continue;
+            }
+            Avtp_Vss_GetVssPath((Avtp_Vss_t*)acf_pdu, &path);
             printf("VSS Path: %d, ", path.vss_static_id_path);
+        } else {
+            // Reserved address mode
+            continue;
         }
 
         VssData_t data;
         Vss_Datatype_t dt = Avtp_Vss_GetDatatype((Avtp_Vss_t*)acf_pdu);
-        Avtp_Vss_GetVssData((Avtp_Vss_t*)acf_pdu, &data);
-
         if (dt == VSS_FLOAT) {
+            // Only float values are printed: decode them if they lie within the packet
+            if (sizeof(float) > vss_bytes - AVTP_VSS_FIXED_HEADER_LEN - path_bytes) {
+                printf("\n");
+                continue;
+            }
+            Avtp_Vss_GetVssData((Avtp_Vss_t*)acf_pdu, &data);
             printf("VSS Value: %f\n", data.data_float);
         }
 
